@@ -365,6 +365,10 @@ func (s *Solver) fallback(extra *Term, ts []*Term) (SatResult, []ModelVal, error
 		{"z3-new", "-in", "-T:" + strconv.Itoa(int(s.fallbackTimeout()/time.Second))},
 		{"cvc5", "--lang=smt2", "--produce-models", "--solve-bv-as-int=sum", "--tlimit=" + ms},
 	}
+	if strings.Contains(script, "(bvmul ") || strings.Contains(script, "(bvudiv ") || strings.Contains(script, "(bvurem ") {
+		// multiply/divide kernels (decimal conversion): the integer encoding first (DESIGN 3.3)
+		try = [][]string{try[2], try[0], try[1]}
+	}
 	for _, argv := range try {
 		cmd := exec.Command(argv[0], argv[1:]...)
 		cmd.Stdin = strings.NewReader(script)
